@@ -85,5 +85,74 @@ void h_plus(void) {
     return spec
 
 
+def _dot_unit(which, bounded, cap=8):
+    """K3: SpVecGF2::operator*(vector) / operator*(set): parity of the common coordinates, loop contract."""
+    log = []
+    rel = "include/parmcb/spvecgf2.hpp"
+    text = X.src(rel)
+    if which == "vec":
+        body = X.body_after(text, r"int operator\*\(const SpVecGF2<U> &v\) const\s*", "SpVecGF2::operator*(vec)")
+        second = (r"auto v_it = v\.ones\.begin\(\), v_it_e = v\.ones\.end\(\);", "size_t v_it = 0, v_it_e = nb;")
+    else:
+        body = X.body_after(text, r"int operator\*\(const std::set<U> &v\) const\s*", "SpVecGF2::operator*(set)")
+        second = (r"auto v_it = v\.begin\(\), v_it_e = v\.end\(\);", "size_t v_it = 0, v_it_e = nb;")
+    body = X.rewrite(body, [
+        (r"auto it = ones\.begin\(\), it_e = ones\.end\(\);", "size_t it = 0, it_e = na;", 1, "container-api", "iterators = indices"),
+        (second[0], second[1], 1, "container-api", "second operand (vector or std::set in iteration order) = sorted array B"),
+        (r"U index = \*it;", "U index = A[it];", 1, "container-api", ""),
+        (r"U v_index = \*v_it;", "U v_index = B[v_it];", 1, "container-api", ""),
+    ], log)
+    inv = ("__CPROVER_assigns(it, v_it, res)\n"
+           "__CPROVER_loop_invariant(it <= na && v_it <= nb && it_e == na && v_it_e == nb && (res == 0 || res == 1) && res == PA[it]"
+           " && (it == 0 || v_it >= nb || A[it - 1] < B[v_it]) && (v_it == 0 || it >= na || B[v_it - 1] < A[it]))\n"
+           "__CPROVER_decreases((na - it) + (nb - v_it))")
+    if not bounded:
+        body = X.splice_loop_contracts(body, {0: inv}, log)
+    fn = r"""
+#include <stddef.h>
+typedef _Bool bool;
+typedef unsigned long U;
+#define MAXLEN %d
+U A[MAXLEN + 1], B[MAXLEN + 1]; size_t na, nb;
+bool CA[MAXLEN + 1]; int PA[MAXLEN + 2];        /* ghost: A[i] occurs in B ; parity of the number of such i below a prefix */
+int dot(void)
+__CPROVER_requires(na <= MAXLEN && nb <= MAXLEN)
+__CPROVER_assigns()
+/* the product is the parity of the number of common coordinates */
+__CPROVER_ensures(__CPROVER_return_value == PA[na])
+{%s}
+size_t vp_in_na, vp_in_nb; U vp_in_a[MAXLEN + 1], vp_in_b[MAXLEN + 1];
+void h_dot(void) {
+  __CPROVER_assume(na <= MAXLEN && nb <= MAXLEN);
+  PA[0] = 0;
+  for (size_t i = 0; i < MAXLEN + 1; i++) {
+    __CPROVER_assume(i + 1 >= na || A[i] < A[i + 1]);
+    __CPROVER_assume(i + 1 >= nb || B[i] < B[i + 1]);
+    bool c = 0;
+    for (size_t j = 0; j < MAXLEN + 1; j++) if (i < na && j < nb && A[i] == B[j]) c = 1;
+    CA[i] = c;
+    PA[i + 1] = (PA[i] + (c ? 1 : 0)) %% 2;
+    vp_in_a[i] = A[i]; vp_in_b[i] = B[i];
+  }
+  vp_in_na = na; vp_in_nb = nb;
+  int r = dot(); (void) r;
+  __CPROVER_assert(0, "VP_REACH end of harness");
+}
+""" % (3 if bounded else cap, body)
+    name = "K3_dot_%s_loop" % which + ("_bounded" if bounded else "")
+    spec = dict(unit=name, site="K3_dot_%s_loop" % which, lang="c", source=rel + " (SpVecGF2::operator*(%s))" % which, text=fn, entry="h_dot",
+                enforce="dot", rewrites=log, timeout=1200, dropped=["class wrapper"],
+                assumptions=["std::vector / std::set iteration bound to sorted arrays; operands canonical"], trusted=["cbmc 6.11 + DFCC, SAT back end"], replay=_replay)
+    if bounded:
+        spec.update(mode="bounded", bound="lengths <= 3, unwound", unwind=9, functions={"SpVecGF2::operator*(%s) (E1)" % which: "bounded(len<=3)"})
+    else:
+        spec.update(mode="proof", bound="loop closed by its contract; lengths <= %d (ghost tables)" % cap, loop_contracts=True, unwind=cap + 3,
+                    fallback=lambda: _dot_unit(which, True), functions={"SpVecGF2::operator*(%s) (E1)" % which: "proved(len<=%d): parity of common coordinates" % cap})
+    return spec
+
+
 def units(tier):
-    return [X.guarded("K2_plus_merge_loops", _unit, False, 12 if tier == "thorough" else 8)]
+    cap = 12 if tier == "thorough" else 8
+    return [X.guarded("K2_plus_merge_loops", _unit, False, cap),
+            X.guarded("K3_dot_vec_loop", _dot_unit, "vec", False, 8 if tier == "thorough" else 5),
+            X.guarded("K3_dot_set_loop", _dot_unit, "set", False, 8 if tier == "thorough" else 5)]
